@@ -1,7 +1,7 @@
 (* C17 — Unmarshal either fills the target faithfully or returns an error.
    Statements only; every proof is [exact <lemma>]. *)
 From Coq Require Import String List NArith ZArith.
-From IonV Require Import Base.Wire Data.Ion Num.Float Go.GoTypes Go.Fields Go.Decode Go.MarshalSpec Go.MarshalP.
+From IonV Require Import Base.Wire Data.Ion Num.Float Go.GoTypes Go.Fields Go.Decode Go.MarshalSpec Go.MarshalP Go.DecodeSafeP Go.RoundtripP.
 Import ListNotations.
 Open Scope N_scope.
 
@@ -21,7 +21,7 @@ Proof. exact decode_bigint_exact. Qed.
 
 (* T17.2 — floats: float32 gets the IEEE narrowing unless MaxFloat32 < |x| <= MaxFloat64 (error) *)
 Theorem C17_float32_exact : forall b,
-  decode_to TyF32 (VFloat b) = if overflow_f32 b then Err else Ok (GFloat (narrow_go b)).
+  decode_to TyF32 (VFloat b) = if overflow_f32 b then Err else Ok (GFloat (narrow b)).
 Proof. exact decode_f32_exact. Qed.
 Theorem C17_float64_exact : forall b, decode_to TyF64 (VFloat b) = Ok (GFloat b).
 Proof. exact decode_f64_exact. Qed.
@@ -44,22 +44,42 @@ Proof. exact scalar_mismatch_is_error. Qed.
 Theorem C17_scalar_null_zero : forall t c, scalar_ty t = true -> decode_to t (VNull c) = Ok (zero t).
 Proof. exact decode_scalar_null. Qed.
 
-(* T17.5 — the property on the scalar matrix.  Full statement: C17_scalar_faithful_stmt (Go/MarshalP.v):
-   forall scalar t and scalar v, the outcome is Ok g with g representing v (or the zero value for a
-   null), or Err; never Panic.  It is FALSE of the faithful model: *)
-Theorem C17_scalar_faithful_refuted : ~ C17_scalar_faithful_stmt.
-Proof. exact scalar_faithful_refuted. Qed.
-(* ... and true as soon as the one defect class is excluded: a symbol without text *)
-Theorem C17_scalar_faithful_except_known : forall t v,
-  scalar_ty t = true -> scalar_val v = true -> (forall n, v <> VSymbol (SymSid n)) -> scalar_outcome_ok t v.
-Proof. exact scalar_faithful_except_known. Qed.
+(* T17.5 — the property on the scalar matrix, in full: for every scalar target and every scalar value the
+   outcome is Ok g with g representing v (the zero value for a null), or Err; never Panic (the symbol-without-
+   text exclusion of the first version is gone with fix 362cf8a) *)
+Theorem C17_scalar_faithful : forall t v,
+  scalar_ty t = true -> scalar_val v = true -> scalar_outcome_ok t v.
+Proof. exact scalar_faithful. Qed.
+Theorem C17_symbol_without_text_is_error : forall n, decode_to TyString (VSymbol (SymSid n)) = Err.
+Proof. exact decode_symbol_no_text_is_error. Qed.
 
-(* T17.6 — two more panics of the faithful model (not scalar targets) *)
-Theorem C17_symtok_target_refuted : forall y, decode_to TySymTok (VSymbol y) = Panic.
-Proof. exact symtok_target_panics. Qed.
-Theorem C17_doc_annotations_refuted :
-  decode_to doc_ann_struct (VAnn [SymText (s "age"%string)] (VInt 10)) = Panic.
-Proof. exact doc_annotations_panics. Qed.
+(* T17.6 — SymbolToken targets and the documented annotation wrapper *)
+Theorem C17_symtok_target : forall y, decode_to TySymTok (VSymbol y) = Ok (GSymTok (tok_of_symv y)).
+Proof. exact symtok_target_exact. Qed.
+Theorem C17_doc_annotations :
+  (decode_to doc_ann_struct (VAnn [SymText (s "age"%string)] (VInt 10)) =
+   Ok (GStruct [GInt 10; GSlice (Some [GString (s "age"%string)])])) /\
+  (decode_to doc_ann_struct (VAnn [SymSid 0] (VInt 10)) = Err).
+Proof. exact (conj doc_annotations_ok doc_annotations_no_text_is_error). Qed.
+
+(* T17.8 — the whole plain universe (Go/MarshalSpec.v pty: every kind but interface{}, nested to any depth;
+   struct fields exported and not embedded, any tags): for every plain type t, every well-typed current
+   content of the target, every well-formed Ion value and every fuel above the nesting depth of t, decodeTo
+   returns a value of type t or an error: it never panics and never runs out of fuel *)
+Theorem C17_plain_safe : forall t, pty t = true ->
+  forall fuel cur v, (ty_depth t < fuel)%nat -> has_type cur t = true -> wfv v = true ->
+  safe_out t (decto fuel t cur false v).
+Proof. exact decode_safe. Qed.
+(* ... in particular Unmarshal into a zero value, with the fuel decode_to computes (fuel adequacy) *)
+Theorem C17_plain_unmarshal_safe : forall t v, pty t = true -> wfv v = true -> safe_out t (decode_to t v).
+Proof. exact decode_to_safe. Qed.
+
+(* T17.9 — faithfulness on containers: decoding the documented Ion image [ion_of t g] of ANY value g of a type of
+   the round-trip universe (slices, arrays, maps, pointers, structs of the flat kinds, nested to any depth)
+   stores exactly g *)
+Theorem C17_decode_image_faithful : forall t, rty t = true ->
+  forall g f, has_type g t = true -> (ty_depth t < f)%nat -> decto f t (zero t) false (ion_of t g) = Ok g.
+Proof. exact decode_ion_of. Qed.
 
 (* T17.7 — Decoder.Decode over a stream: one value per call, in order *)
 Theorem C17_decode_any_total : forall v, exists g, decode_any v = g.
@@ -76,6 +96,8 @@ Example C17_ex2 : decode_to (TyInt U64) (VInt 18446744073709551616) = Err.
 Proof. reflexivity. Qed.
 Example C17_ex3 : decode_to TyF32 (VFloat 5183643170566569985) = Err.      (* MaxFloat32 + 1ulp(float64) *)
 Proof. vm_compute. reflexivity. Qed.
+Example C17_ex5 : pty (TyMap (TySlice (TyStruct (FCons (s "A"%string) true false (s "a,omitempty"%string) (TyPtr (TyInt I8)) FNil)))) = true.
+Proof. reflexivity. Qed.
 Example C17_ex4 : decode_to tok_ann_struct (VAnn [SymText (s "age"%string)] (VInt 10)) =
   Ok (GStruct [GInt 10; GSlice (Some [GSymTok (tok_text (s "age"%string))])]).
 Proof. exact tok_annotations_ok. Qed.
